@@ -173,6 +173,11 @@ def run_hist(ctx, base, spec, ops, extra=None):
             if op[0] == "interleave":
                 sim.interleave = (op[1], op[2])
                 res = sim.iterate(op[1])
+            elif op[0] == "second-worker":
+                # two workers: while one pull is inside its transport, the other worker runs whatever else is queued on that host
+                sim.second_worker = True
+                res = sim.iterate(op[1])
+                sim.second_worker = False
             elif op[0] == "late":
                 # the operator (or a fault) acts after the daemon's main loop has queued its tasks and before they run
                 def late(sub=op[2]):
@@ -265,6 +270,19 @@ def explore(ctx):
         run_hist(ctx, base, ed_spec, [("iter", "h1"), ("cli", "file clean", ["acq1/f1.dat", "--node=n1"]), ("cli", "node modify", ["n1"] + change), ("iter", "h1"), ("iter", "h1")],
                  {"scenario": "node-record-edited"})
         ctx.count("history-node-record-edited")
+    # two requests for one file into one group, the first from a source whose file is gone: with two workers the pulls must not overlap
+    # (the one that fails would unlink what the other has just delivered and recorded healthy)
+    for first_bad in (True, False):
+        tw_spec = {"groups": [{"name": f"g{i}"} for i in (1, 2, 3)],
+                   "nodes": [{"name": "s1", "group": "g1", "stype": "F", "host": "h1", "active": True, "username": "u", "address": "addr"},
+                             {"name": "s2", "group": "g2", "stype": "F", "host": "h1", "active": True, "username": "u", "address": "addr"},
+                             {"name": "d", "group": "g3", "stype": "A", "host": "h1", "active": True, "username": "u", "address": "addr"}],
+                   "acqs": ["acq1"], "files": [{"acq": "acq1", "name": "f.dat", "size": 150}],
+                   "copies": [{"file": 0, "node": "s1", "has": "Y", "wants": "Y"}, {"file": 0, "node": "s2", "has": "Y", "wants": "Y"}],
+                   "reqs": [{"file": 0, "from": "s2" if first_bad else "s1", "to": "g3", "state": "pending"}, {"file": 0, "from": "s1" if first_bad else "s2", "to": "g3", "state": "pending"}],
+                   "rules": [], "unregistered": [], "ireqs": []}
+        run_hist(ctx, base, tw_spec, [("fault", "remove", "s2", "acq1/f.dat"), ("second-worker", "h1"), ("second-worker", "h1"), ("iter", "h1")], {"scenario": "two-workers-one-file"})
+        ctx.count("history-two-workers")
     # a released copy that is the source of a pending transfer stays (copy ids differ from file ids: the second file's copies come later)
     for wants in ("N", "M"):
         nodes = [{"name": f"n{i}", "group": f"g{i}", "stype": "A" if i != 1 or wants == "N" else "F", "host": "h1", "active": True, "username": "u", "address": "addr"} for i in (1, 2, 3)]
